@@ -171,6 +171,39 @@ impl DatagramState {
             decreases self.outgoing@.len()
 //@ end
 
+//@ extract quinn-proto/src/connection/datagrams.rs :: impl DatagramState::fn drop_oversized
+//@ props C16
+//@ ret r
+//@ retain-loop 0 : Datagram
+            invariant
+                self.incoming@ == old(self).incoming@, self.recv_buffered == old(self).recv_buffered,
+                self.outgoing@.len() <= old(self).outgoing@.len(),
+                self.outgoing@ =~= old(self).outgoing@.skip(old(self).outgoing@.len() - self.outgoing@.len()),
+                vkept@ =~= old(self).outgoing@.take(old(self).outgoing@.len() - self.outgoing@.len()).filter(|d: Datagram| d.data@.len() < max_payload),
+                self.outgoing_total == total(vkept@) + total(self.outgoing@),
+                dropped_any == (vkept@.len() + self.outgoing@.len() < old(self).outgoing@.len()),
+            ensures
+                self.outgoing@.len() == 0,
+            decreases self.outgoing@.len()
+//@ after let result =
+            proof {
+                let s = old(self).outgoing@;
+                let k = s.len() - self.outgoing@.len() - 1;
+                assert(s.take(k + 1).drop_last() =~= s.take(k));
+                assert(s.take(k + 1).last() == vitem);
+                reveal(Seq::filter);
+            }
+//@ before dropped_any #0
+        proof { assert(old(self).outgoing@.take(old(self).outgoing@.len() as int) =~= old(self).outgoing@); assert(total(Seq::<Datagram>::empty()) == 0); }
+//@ contract
+        requires old(self).wf(),
+        ensures
+            final(self).wf(), final(self).incoming@ == old(self).incoming@, final(self).recv_buffered == old(self).recv_buffered,
+            // exactly the datagrams that no longer fit are dropped, the others keep their order and content, and the byte count follows
+            final(self).outgoing@ =~= old(self).outgoing@.filter(|d: Datagram| d.data@.len() < max_payload),
+            r == (final(self).outgoing@.len() < old(self).outgoing@.len()),
+//@ end
+
 //@ extract quinn-proto/src/connection/datagrams.rs :: impl DatagramState::fn has_send_buffer_space
 //@ props C16
 //@ ret r
